@@ -14,7 +14,8 @@
          causality was requested (a harmless extra t >= 0 on impulses/step-qualified terms is accepted)
      16  initial/final value formula differs from the model
      32  residues of the substitution method differ from the model
-     64  a sqrt witness handed to the damped-sin formulas is wrong (harness error)
+     64  the translated delay bookkeeping is inconsistent (shift of uresult / position of the step
+         differ from the shift of cresult); added by the generated case files
    [case_rt_sound]: bit 4 clear  ==>  L(Lcapy's output) = the input, proved. *)
 Require Import LT.FieldSec LT.PolyQ LT.QcI LT.ExpPoly LT.ILT LT.ILTResidue.
 Local Open Scope F_scope.
@@ -135,12 +136,16 @@ Fixpoint qlist_eqb (l m : list KI) : bool :=
   match l, m with [], [] => true | a :: l', b :: m' => qci_eqb a b && qlist_eqb l' m' | _, _ => false end.
 Fixpoint nlist_eqb (l m : list nat) : bool :=
   match l, m with [], [] => true | a :: l', b :: m' => Nat.eqb a b && nlist_eqb l' m' | _, _ => false end.
-Definition residues_chk (sel : bool -> nat -> nat -> bool) (poles : list (KI * nat)) (Bn : list KI)
+(* Lcapy's residues = the model with the TRANSLATED selection test and divisor = the Taylor-jet
+   residues of ILTResidue.residue_k_general (every multiplicity) *)
+Definition residues_chk_d (sel : bool -> nat -> nat -> bool) (dv : nat -> nat -> KI) (poles : list (KI * nat)) (Bn : list KI)
     (R P : list KI) (Os : list nat) : bool :=
   let es := pole_entries (K:=KI) 0%nat poles in
-  qlist_eqb (residues_sub (K:=KI) sel poles Bn) R &&
+  qlist_eqb (residues_sub_d (K:=KI) sel dv poles Bn) R &&
+  qlist_eqb (residues_jet (K:=KI) poles Bn) R &&
   qlist_eqb (map (fun e => match e with (_, p, _, _) => p end) es) P &&
   nlist_eqb (map (fun e => match e with (_, _, o, _) => o end) es) Os.
+Definition residues_chk sel := residues_chk_d sel (fact_div (K:=KI)).
 
 (* products with an undefined transform: classification of Lcapy's result *)
 Definition utime_eqb (a b : utime) : bool :=
